@@ -376,6 +376,17 @@ def run(c):
         rcr = fr.result()[0] if fr else None
     judge_client(c, rcc, soc, cout)
     if fr:
+        tr_tmpl = ("SPECIFICATION Spec\nCONSTANTS\n  THR = 3\n  MINLIFE = 1\n  RETRY = 2\n  LAT = 1\n  Lifes = {{1, 2, 5, 6, 8}}\n  MaxT = 24\n"
+                   "  HEALTHY = {healthy}\n  VARIANT = \"{variant}\"\nINVARIANTS PublishedFresh KeepWhileValid NoGapWhenHealthy AlwaysATokenWhenHealthy\n")
+        for healthy in ("FALSE", "TRUE"):
+            rr = c.tlc(SD, "MC_TokenRefresh", cfg=cfg(c, "tr_%s.cfg" % healthy, tr_tmpl.format(healthy=healthy, variant="code")), timeout=1200, coverage=False)
+            for inv in rr.violated:
+                c.violation("spec:refresher:%s" % inv, "design-level: %s violated on MC_TokenRefresh (see %s)" % (inv, rr.out_path), {"tlc_out": rr.out_path})
+        for variant, healthy in (("late", "TRUE"), ("dropvalid", "FALSE")):
+            r0 = c.tlc(SD, "MC_TokenRefresh", cfg=cfg(c, "tr_%s.cfg" % variant, tr_tmpl.format(healthy=healthy, variant=variant)), expect_violation=True,
+                       coverage=False, keep_printed=False)
+            if not r0.violated:
+                c.fail_tool("oracle self-check failed: TokenRefresh variant '%s' is not refuted" % variant)
         judge_refresher(c, rcr, rout)
     if rc != 0 or not os.path.exists(gout):
         c.drift("gateway loop run failed rc=%s %s" % (rc, (so or "")[-300:]))
